@@ -97,6 +97,12 @@ M = {
  "C15c-m2": ("C15", "ExpandedSecretKey::from_slice checks len < 64 and then copy_from_slice", "hazmat feature; a slice longer than 64 bytes", {}),
  "C16c-m1": ("C16", "VerifyingKey visit_bytes truncates over-long byte strings to 32 bytes", "serde feature, a byte-string format (bincode), a payload longer than 32 bytes", {}),
  "C16c-m2": ("C16", "Scalar visit_seq reduces before its canonicity check", "serde feature, a payload of value l or more", {}),
+ "C10c-m1": ("C10", "Scalar29::from_bytes_wide returns early when the high limbs are zero", "32-bit backend; a secret wide input below 2^261 (a 32-byte secret zero-extended) against a full-width one", {}),
+ "C10c-m2": ("C10", "FieldElement::batch_invert multiplies under `if !input.is_zero()` instead of a conditional assignment", "the Ristretto batch encoder on a secret point that is the identity (secret scalar 0)", {"C10": "the target (batch encoder on secret points) was added on reading this change; the boundary secret 0 makes the traces diverge"}),
+ "C12c-m1": ("C12", "two digits transposed in one limb of the IFMA BASEPOINT_ODD_LOOKUP_TABLE entry 61 (123 B)", "nightly unstable_avx512 build on an avx512ifma CPU; a width-8 NAF digit +-123", {}),
+ "C12c-m2": ("C12", "u32 MONTGOMERY_A_NEG is 2^255 - A instead of p - A", "32-bit build, digest feature, the Elligator2 map", {}),
+ "C13c-m1": ("C13", "verify_batch parses S itself: rejects only set high bits, then reduces (accepts S + l)", "batch feature, default (non-legacy) build, the S + l alias of a valid S", {}),
+ "C13c-m2": ("C13", "verify_batch treats an undecodable R as the identity (vartime_multiscalar_mul with unwrap_or_default)", "an undecodable R with S = H(R,A,M) * a, any batch size", {}),
  "C10-own1": ("C10", "LookupTable::select reads the entry by direct index (own seeded change from the design's appendix, not from a sub-agent)", "any secret digit", {"C10": "caught (lock-step traces of ed.mul_base diverge)"}),
 }
 # measured results: seeded/RESULTS.log (appended by tools/run_seeded.sh); the latest line per (change, check, tier) counts
